@@ -188,7 +188,7 @@ def run(ctx, f, rep):
                 (rep.ok if o.ok else rep.bad)("R13.1", o.key.replace("R04.4", "R13.1", 1), o.what, o.loc, o.detail)
     # ---- subscribe / unsubscribe
     for fn_name, setop, want_type in (("subscribe", "insert", 1), ("unsubscribe", "remove", 0)):
-        bs = [b for b in f.bodies if b.path.endswith("sub::SubSocket::%s::{closure#0}" % fn_name)]
+        bs = [b for b in f.bodies if b.path.endswith("::SubSocket::%s::{closure#0}" % fn_name)]
         rep.floor("R13.2", "SubSocket::%s" % fn_name, len(bs), 1)
         for b in bs:
             nb = 0
